@@ -84,7 +84,11 @@ class ScaleRatFuncCompuMethod(CompuMethod):
     def convert_internal_to_physical(self, internal_value: AtomicOdxType) -> AtomicOdxType:
         for seg in self._int_to_phys_segments:
             if seg.applies(internal_value):
-                return seg.convert(internal_value)
+                try:
+                    return seg.convert(internal_value)
+                except (ArithmeticError, ValueError):
+                    # e.g., a pole of the rational function
+                    break
 
         odxraise(f"Internal value {internal_value!r} be decoded using this compumethod",
                  DecodeError)
@@ -97,7 +101,11 @@ class ScaleRatFuncCompuMethod(CompuMethod):
 
         for seg in self._phys_to_int_segments:
             if seg.applies(physical_value):
-                return seg.convert(physical_value)
+                try:
+                    return seg.convert(physical_value)
+                except (ArithmeticError, ValueError):
+                    # e.g., a pole of the rational function
+                    break
 
         odxraise(f"Physical values {physical_value!r} be decoded using this compumethod",
                  EncodeError)
